@@ -36,7 +36,7 @@ import warnings
 warnings.filterwarnings("ignore", message=".*hist_to_csv not implemented.*")
 
 from ..kernel import RunResult, summarize, exception_origin, exception_site
-from ..seams.fs import SimFS, SimOS, Clock
+from ..seams.fs import SimFS, SimOS, SimTempfile, Clock
 from ..seams.proc import SimSubprocess
 from ..seams.flow import Unprintable, NoEq
 
@@ -144,6 +144,8 @@ def install(fs, sub):
         m.os = simos
         m.open = fs.open
         m.subprocess = sub
+        if hasattr(m, "tempfile"):
+            m.tempfile = SimTempfile(fs, simos)
 
 
 # --------------------------------------------------------------------------
